@@ -54,7 +54,7 @@ fn process_descendant<T: Queryable>(data: Pointer<T>) -> Data<T> {
             Data::new_refs(
                 object
                     .into_iter()
-                    .map(|(key, value)| Pointer::key(value, data.path.clone(), key))
+                    .map(|(key, value)| Pointer::member(value, data.path.clone(), key))
                     .collect(),
             )
             .flat_map(process_descendant),
